@@ -98,6 +98,41 @@ def gen_bytes(rng: random.Random) -> bytes:
     return msg
 
 
+def twin_bytes(rng: random.Random, msg: bytes) -> bytes:
+    """A different message that collides with *msg* under weak notions of
+    identity: same length and same additive checksums (Adler-32, Fletcher,
+    byte sum), same bytes in another order, same prefix, or the same bytes
+    again."""
+    b = bytearray(msg)
+    kind = rng.randrange(5)
+    if kind == 0 and len(b) >= 3:
+        # +1 -2 +1 on three adjacent bytes keeps the byte sum and the sum
+        # of running sums, hence Adler-32 and Fletcher
+        spots = [i for i in range(len(b) - 2)
+                 if b[i] < 255 and b[i + 1] >= 2 and b[i + 2] < 255
+                 and b[i + 1] - 2 not in (0x0d, 0x0a, 0)
+                 and b[i] + 1 not in (0x0d, 0x0a)
+                 and b[i + 2] + 1 not in (0x0d, 0x0a)]
+        if spots:
+            i = rng.choice(spots)
+            b[i] += 1
+            b[i + 1] -= 2
+            b[i + 2] += 1
+            return bytes(b)
+    if kind == 1 and len(b) >= 2:
+        i, j = rng.randrange(len(b)), rng.randrange(len(b))
+        b[i], b[j] = b[j], b[i]
+        return bytes(b)
+    if kind == 2 and b:
+        b[-1] = (b[-1] + 1) % 256 or 1
+        return bytes(b)
+    if kind == 3 and b:
+        i = rng.randrange(len(b))
+        b[i] = b[i] ^ 0x20 if chr(b[i]).isalpha() else b[i]
+        return bytes(b)
+    return bytes(b)
+
+
 def diagnose(want: bytes, got: bytes | None) -> str:
     if got is None:
         return 'nil'
@@ -121,8 +156,13 @@ def diagnose(want: bytes, got: bytes | None) -> str:
 def gen_bytes_case(rng: random.Random, tier: str, backends=('dict',)) -> dict:
     cfg = {'backend': rng.choice(backends), 'users': [USER], 'buggify': [],
            'bad_command_limit': 0}
-    n = rng.choice([1, 1, 1, 2, 3])
-    msgs = [s(gen_bytes(rng)) for _ in range(n)]
+    n = rng.choice([1, 1, 1, 2, 2, 3])
+    raw = [gen_bytes(rng) for _ in range(n)]
+    if n >= 2 and rng.random() < 0.5:
+        # near-twins in one store: a server that identifies stored content
+        # by something weaker than the bytes hands out the wrong one
+        raw[1] = twin_bytes(rng, raw[0])
+    msgs = [s(m) for m in raw]
     ranges = []
     for m in msgs:
         ln = len(m)
@@ -364,7 +404,10 @@ class C03(Profile):
             '8-bit; multipart with 0-3 parts with and without closing '
             'boundary; message/rfc822; base64/QP), the C06/C07 hostile '
             'generators, raw bytes, sizes up to 64 KiB, plus 0-2 byte '
-            'mutations; delivered as {n} or {n+} literal with seeded '
+            'mutations; with 2-3 messages half of the cases make the second '
+            'a near-twin of the first (same Adler-32/byte sums, permuted '
+            'bytes, same prefix, case-flipped, identical); '
+            'delivered as {n} or {n+} literal with seeded '
             'chunking, singly or as MULTIAPPEND, optionally copied/moved by '
             'a second session while the first fetches. Oracle per message '
             'and per mailbox: BODY.PEEK[], RFC822 = b; RFC822.SIZE = len(b); '
